@@ -24,6 +24,60 @@ pub struct Unit {
     /// valued items are u32: the value `v` of the alphabet is written `7`, `w` stays invalid
     #[serde(default)]
     pub typed: bool,
+    /// valued items are PathBuf: the value `v` of the alphabet is written as bytes that are not
+    /// valid UTF-8 (a path is taken as is)
+    #[serde(default)]
+    pub path_values: bool,
+}
+
+/// switches with multi-byte short names beside a valued item with an ASCII short name
+fn non_ascii_levels() -> Vec<Level> {
+    let mut out = vec![];
+    let mk = |c: char, kind: Kind| Named { names: Names::short(c), kind, hidden: false, ty: Ty::Os, adjacent: false, guarded: false };
+    for ak in [Kind::ArgReq, Kind::ArgOpt, Kind::ArgMany] {
+        for tail in [Tail::None, fam::pos(&[PosKind::Opt]), fam::pos(&[PosKind::Many])] {
+            out.push(fam::leaf(vec![mk('ñ', Kind::Switch), mk('o', ak)], tail.clone()));
+            out.push(fam::leaf(vec![mk('ñ', Kind::Switch), mk('é', Kind::Count), mk('o', ak)], tail));
+        }
+    }
+    out
+}
+
+fn path_typed(ls: Vec<Level>) -> Vec<Level> {
+    fn set(l: &mut Level) {
+        for n in l.named.iter_mut() {
+            if n.kind.is_arg() {
+                n.ty = Ty::Path;
+            }
+        }
+        if let Tail::Cmds { cmds, .. } = &mut l.tail {
+            for c in cmds {
+                set(&mut c.level);
+            }
+        }
+    }
+    ls.into_iter()
+        .map(|mut l| {
+            set(&mut l);
+            l
+        })
+        .collect()
+}
+
+/// `v` -> `f\xff` wherever it is a whole word or an attached value
+fn bytes_alphabet(alpha: Vec<Tok>) -> Vec<Tok> {
+    alpha
+        .into_iter()
+        .map(|t| match t.utf8() {
+            Some("v") => Tok(vec![b'f', 0xff]),
+            Some(s) if s.ends_with("=v") => {
+                let mut b = s.as_bytes()[..s.len() - 1].to_vec();
+                b.extend([b'f', 0xff]);
+                Tok(b)
+            }
+            _ => t,
+        })
+        .collect()
 }
 
 /// every valued named item converts to u32
@@ -142,7 +196,7 @@ impl Check for C01 {
         macro_rules! push {
             ($levels:expr, $len:expr, $full:expr) => {
                 for l in $levels {
-                    out.push(serde_json::to_value(Unit { level: l, len: $len, full_alpha: $full, sent: 0, typed: false }).unwrap());
+                    out.push(serde_json::to_value(Unit { level: l, len: $len, full_alpha: $full, sent: 0, typed: false, path_values: false }).unwrap());
                 }
             };
         }
@@ -162,15 +216,23 @@ impl Check for C01 {
                 // typed values: every valued item converts to u32, the alphabet has one valid
                 // and one invalid value
                 for l in typed_u32(fam::conventional(1, &t2, seed + 5)) {
-                    out.push(serde_json::to_value(Unit { level: l, len: 4, full_alpha: false, sent: 0, typed: true }).unwrap());
+                    out.push(serde_json::to_value(Unit { level: l, len: 4, full_alpha: false, sent: 0, typed: true, path_values: false }).unwrap());
                 }
                 for l in typed_u32(fam::conventional(2, &[Tail::None, fam::pos(&[PosKind::Opt])], seed + 5)) {
-                    out.push(serde_json::to_value(Unit { level: l, len: 4, full_alpha: false, sent: 0, typed: true }).unwrap());
+                    out.push(serde_json::to_value(Unit { level: l, len: 4, full_alpha: false, sent: 0, typed: true, path_values: false }).unwrap());
+                }
+                // multi-byte short names in one block with a valued item
+                for l in non_ascii_levels() {
+                    out.push(serde_json::to_value(Unit { level: l, len: 3, full_alpha: true, sent: 0, typed: false, path_values: false }).unwrap());
+                }
+                // PathBuf values that are not valid UTF-8
+                for l in path_typed(fam::conventional(1, &[Tail::None, fam::pos(&[PosKind::Opt])], seed + 6)) {
+                    out.push(serde_json::to_value(Unit { level: l, len: 3, full_alpha: false, sent: 0, typed: false, path_values: true }).unwrap());
                 }
                 // long vectors: every sentence the grammar generates (all definitions) and every
                 // vector within one edit operation of a sentence (every fourth definition)
                 for (i, l) in fam::conventional(2, &t2, seed + 3).into_iter().enumerate() {
-                    out.push(serde_json::to_value(Unit { level: l, len: 3, full_alpha: false, sent: if i % 4 == 0 { 2 } else { 1 }, typed: false }).unwrap());
+                    out.push(serde_json::to_value(Unit { level: l, len: 3, full_alpha: false, sent: if i % 4 == 0 { 2 } else { 1 }, typed: false, path_values: false }).unwrap());
                 }
             }
             Tier::Thorough => {
@@ -182,17 +244,23 @@ impl Check for C01 {
                 let small = vec![Tail::None, fam::pos(&[PosKind::Opt]), fam::pos(&[PosKind::Req, PosKind::Many]), fam::cmd_tails(seed, false, false)[1].clone()];
                 push!(fam::conventional(3, &small, seed + 3), 3, false);
                 push!(with_usage_fallback(fam::conventional(2, &t2, seed + 2)), 3, false);
+                for l in non_ascii_levels() {
+                    out.push(serde_json::to_value(Unit { level: l, len: 4, full_alpha: true, sent: 0, typed: false, path_values: false }).unwrap());
+                }
+                for l in path_typed(fam::conventional(2, &[Tail::None, fam::pos(&[PosKind::Opt])], seed + 6)) {
+                    out.push(serde_json::to_value(Unit { level: l, len: 4, full_alpha: false, sent: 0, typed: false, path_values: true }).unwrap());
+                }
                 for l in typed_u32(fam::conventional(1, &t2, seed + 5)) {
-                    out.push(serde_json::to_value(Unit { level: l, len: 5, full_alpha: false, sent: 0, typed: true }).unwrap());
+                    out.push(serde_json::to_value(Unit { level: l, len: 5, full_alpha: false, sent: 0, typed: true, path_values: false }).unwrap());
                 }
                 for l in typed_u32(fam::conventional(2, &t2, seed + 5)) {
-                    out.push(serde_json::to_value(Unit { level: l, len: 4, full_alpha: false, sent: 0, typed: true }).unwrap());
+                    out.push(serde_json::to_value(Unit { level: l, len: 4, full_alpha: false, sent: 0, typed: true, path_values: false }).unwrap());
                 }
                 for l in fam::conventional(2, &t2, seed + 3) {
-                    out.push(serde_json::to_value(Unit { level: l, len: 3, full_alpha: false, sent: 2, typed: false }).unwrap());
+                    out.push(serde_json::to_value(Unit { level: l, len: 3, full_alpha: false, sent: 2, typed: false, path_values: false }).unwrap());
                 }
                 for (i, l) in fam::conventional(3, &small, seed + 4).into_iter().enumerate() {
-                    out.push(serde_json::to_value(Unit { level: l, len: 3, full_alpha: false, sent: if i % 3 == 0 { 2 } else { 1 }, typed: false }).unwrap());
+                    out.push(serde_json::to_value(Unit { level: l, len: 3, full_alpha: false, sent: if i % 3 == 0 { 2 } else { 1 }, typed: false, path_values: false }).unwrap());
                 }
             }
         }
@@ -211,6 +279,9 @@ impl Check for C01 {
         let mut alpha = alphabet(&u.level, if u.full_alpha { AlphaStyle::Full } else { AlphaStyle::Compact });
         if u.typed {
             alpha = numeric_alphabet(alpha);
+        }
+        if u.path_values {
+            alpha = bytes_alphabet(alpha);
         }
         let env = Env::new();
         if u.sent > 0 {
@@ -266,7 +337,7 @@ impl Check for C01 {
         judge("C01", &u.level, unit, &model, &p, &argv, &Env::new(), ctx);
     }
     fn rule(&self) -> String {
-        "every definition of the conventional family (all ordered tuples of item kinds x tails, naming styles rotated by seed) x every vector of the token tree Sigma^{<=L} (Sigma = every declared spelling, inline forms, words, `--`, unknown names, command names); a state is a (definition, vector) node, a transition appends one token; plus, for long vectors, every sentence the grammar generates (all legal occurrence counts, spellings cycled, declaration and reverse order, words after / before the named items and behind `--`, every command and alias recursively) and every vector within ONE edit operation of a sentence (insert or replace by any token of Sigma at any position, delete, duplicate, swap neighbours); a typed sub-family converts every valued item to u32 over an alphabet with one valid (7) and one invalid (w) value; each node is judged by the reference scanner (accept+value / reject) against run_inner; non-trivial = node judged by the model (not in the unspecified region) and not the empty vector when rejected; nodes are distinct by construction (a tree has no converging paths)".into()
+        "every definition of the conventional family (all ordered tuples of item kinds x tails, naming styles rotated by seed) x every vector of the token tree Sigma^{<=L} (Sigma = every declared spelling, inline forms, words, `--`, unknown names, command names); a state is a (definition, vector) node, a transition appends one token; plus, for long vectors, every sentence the grammar generates (all legal occurrence counts, spellings cycled, declaration and reverse order, words after / before the named items and behind `--`, every command and alias recursively) and every vector within ONE edit operation of a sentence (insert or replace by any token of Sigma at any position, delete, duplicate, swap neighbours); levels with multi-byte short switch names beside an ASCII valued item (clusters), PathBuf-valued levels whose alphabet carries a non-UTF-8 value, a typed sub-family converts every valued item to u32 over an alphabet with one valid (7) and one invalid (w) value; each node is judged by the reference scanner (accept+value / reject) against run_inner; non-trivial = node judged by the model (not in the unspecified region) and not the empty vector when rejected; nodes are distinct by construction (a tree has no converging paths)".into()
     }
     fn bounds(&self, tier: Tier) -> Value {
         match tier {
